@@ -446,6 +446,72 @@ def run_history(_):
     return n, viols
 
 
+def run_uservars(_):
+    """`@var:` lines are assignments KROME executes in file order: a variable assigned twice (a default in the header,
+    an override further down) has the value of the LAST assignment in every rate that follows; a variable defined
+    from another one sees that one's value.  The file is read by Network, the rates are rendered and the generated
+    definitions are evaluated."""
+    import math
+    import shutil
+    import tempfile
+    from pathlib import Path
+
+    from ..harness import ratesrun as RR
+    from ..harness.render import render, reset_globals, quiet, scratch
+
+    reset_globals()
+    from naunet.network import Network
+
+    viols = []
+    n = 0
+    tmp = Path(tempfile.mkdtemp(dir=scratch()))
+    try:
+        for tag, header, want in (
+            ("assigned-twice", ["@var: fscale = 4.0", "@var: fscale = 0.25"], {"fscale": 0.25}),
+            ("assigned-twice-apart", ["@var: fscale = 4.0", "@common: user_x", "@var: other = 3.0", "@var: fscale = 1.0/8.0"], {"fscale": 0.125, "other": 3.0}),
+            ("defined-from-another", ["@var: base = 2.0", "@var: fscale = base*3.0"], {"base": 2.0, "fscale": 6.0}),
+            ("single", ["@var: fscale = 4.0"], {"fscale": 4.0}),
+            # the right-hand side of a @var line is a Fortran expression like the rates are
+            ("fortran-definition", ["@var: fscale = 4d0"], {"fscale": 4.0}),
+            ("fortran-definition", ["@var: fscale = 2d0**2"], {"fscale": 4.0}),
+        ):
+            f = tmp / f"{tag}.krome"
+            f.write_text("\n".join(["@format:idx,R,R,P,P,Tmin,Tmax,rate"] + header + ["1,H,H,H2,,NONE,NONE,1.0d-10*fscale", "2,H2,,H,H,NONE,NONE,fscale*2d0"]) + "\n")
+            n += 1
+            case = {"uservars": tag}
+            try:
+                with quiet():
+                    net = Network(filelist=str(f), fileformats="krome")
+                    files = render(net, "dense", RR.RATE_TEMPLATES_CVODE)
+                stmts, decls, macros = RR.read_rate_statements(files)
+            except Exception as e:
+                viols.append((f"C12:uservar:{tag}:raises", f"{header}: {e!r}", case))
+                continue
+            env = {"Tgas": 100.0, "nH": 1e4, "user_x": 1.0}
+            vals = {}
+            notc = None
+            for name, expr in decls:
+                if expr is None:
+                    continue
+                try:
+                    vals[name] = float(eval_double(parse_expr(expr), {**env, **vals}, {"log": math.log, "sqrt": math.sqrt, "exp": math.exp, "log10": math.log10, "pow": math.pow}))
+                except CSyntaxError:
+                    if name in want:
+                        notc = (name, expr)
+                except Exception:
+                    continue
+            if notc:
+                viols.append((f"C12:uservar:definition-not-c", f"{header}: the generated rates define `{notc[0]} = {notc[1]};` - the right-hand side of the @var line is copied as it stands and is not a C expression", case))
+                continue
+            for k_, v_ in want.items():
+                if k_ not in vals or not same(vals[k_], v_, 1e-12):
+                    viols.append((f"C12:uservar:{tag}", f"{header}: the generated rates define {k_} = {vals.get(k_)!r}; KROME executes the @var lines in order, so {k_} = {v_!r}", case))
+                    break
+        return n, viols
+    finally:
+        shutil.rmtree(tmp, ignore_errors=True)
+
+
 def run_near_miss(_):
     from ..harness.render import reset_globals, quiet
 
@@ -537,6 +603,9 @@ def run(ctx):
     for n, viols in ctx.pmap(run_near_miss, [0]):
         tot += n
         ctx.absorb(viols)
+    for n, viols in ctx.pmap(run_uservars, [0]):
+        tot += n
+        ctx.absorb(viols)
     for n, viols in ctx.pmap(run_history, [0]):
         tot += n
         ctx.absorb(viols)
@@ -573,6 +642,9 @@ def run(ctx):
 
 
 def replay(ctx, case):
+    if "uservars" in case:
+        ctx.absorb(run_uservars(0)[1])
+        return
     if "history" in case:
         ctx.absorb(run_history(0)[1])
         return
